@@ -53,6 +53,12 @@ Definition ST_NonNegativeInteger : Xsd.stype :=
 Definition ST_xs_double : Xsd.stype :=
   {| st_name := "xs:double"; st_prim := PDouble; st_enums := []; st_pats := []; st_facets := [] |}.
 
+Definition ST_ZeroToOne : Xsd.stype :=
+  {| st_name := "ZeroToOne"; st_prim := PFloat; st_enums := []; st_pats := []; st_facets := [(FMinIncl, (0%Z, 0)); (FMaxIncl, (1%Z, 0))] |}.
+Definition ST_DoubleGreaterThanZero : Xsd.stype :=
+  {| st_name := "DoubleGreaterThanZero"; st_prim := PDouble; st_enums := []; st_pats := []; st_facets := [(FMinExcl, (0%Z, 0))] |}.
+Definition fracs : list dec := [(0%Z, 0%nat); (25%Z, 2%nat); (5%Z, 1%nat); (75%Z, 2%nat); (1%Z, 0%nat)].
+
 (* ---------- NmlId ---------- *)
 Definition RE_NmlId : cre := Cat (Sym [(97, 122); (65, 90); (95, 95)]) (Star (Sym [(97, 122); (65, 90); (48, 57); (95, 95)])).
 
@@ -95,10 +101,15 @@ Section TreeConf.
 Variable T : tables.
 Variable S : schema.
 Variable good : string -> bool.
+Variable F : Type.
+Variables F_eqb F_ltb : F -> F -> bool.
+Variable F_of_dec : dec -> F.
+Variable parse_float : string -> option F.
+Variable finite : F -> bool.
 
-Definition conf := @conformsb dec dec_veqb dec_ltb (fun d => d) parse_dec (fun _ => true) good.
-Definition aconf := @attr_conf dec dec_veqb dec_ltb (fun d => d) (fun _ => true).
-Definition kconf := @kid_conf dec dec_veqb dec_ltb (fun d => d) parse_dec (fun _ => true).
+Definition conf := @conformsb F F_eqb F_ltb F_of_dec parse_float finite good.
+Definition aconf := @attr_conf F F_eqb F_ltb F_of_dec finite.
+Definition kconf := @kid_conf F F_eqb F_ltb F_of_dec parse_float finite.
 
 Definition class_facts (c : string) (i : cinfo) : Prop :=
   (exists k, find_cls T c = Some k) /\ (exists k, find_ct (s_ctypes S) c = Some k) /\ good c = true /\
@@ -118,9 +129,9 @@ Qed.
 
 (* ---------- the facts about this run's tables ---------- *)
 Definition mkxa (ty : string) : xattr := Build_xattr "" ty false None None.
-Definition vok (ty : string) (v : xvalue) : bool :=
-  @value_ok dec dec_veqb dec_ltb (fun d => d) (fun _ => true) S (mkxa ty) v.
-Definition lexok (ty s : string) : bool := @lex_ok_named dec dec_veqb dec_ltb (fun d => d) parse_dec (fun _ => true) S ty s.
+Definition vok (ty : string) (v : value F) : bool :=
+  @value_ok F F_eqb F_ltb F_of_dec finite S (mkxa ty) v.
+Definition lexok (ty s : string) : bool := @lex_ok_named F F_eqb F_ltb F_of_dec parse_float finite S ty s.
 
 Definition known_nlex : list string := [dnlex Soma; dnlex Axon; dnlex Dendrite; section_nlex].
 Definition all_notes : list string :=
@@ -136,9 +147,7 @@ Definition consts_ok : bool :=
                     vok "Nml2Quantity_resistivity" (VStr (value_string Resistivity v))) [0; 1; 2]%Z &&
   forallb (fun s => vok "Nml2Quantity_voltage" (VStr s)) ["0.0 mV"; "-70 mV"] &&
   forallb (fun s => vok "NmlId" (VStr s)) ["pas"; "non_specific"; "na"; "c"] &&
-  vok "Nml2Quantity_conductanceDensity" (VStr "1 mS_per_cm2") &&
-  vok "DoubleGreaterThanZero" (VFlt (1%Z, 0%nat)) &&
-  forallb (fun d => vok "ZeroToOne" (VFlt d)) [(0%Z, 0%nat); (25%Z, 2%nat); (5%Z, 1%nat); (75%Z, 2%nat); (1%Z, 0%nat)].
+  vok "Nml2Quantity_conductanceDensity" (VStr "1 mS_per_cm2").
 
 Record table_facts : Prop := {
   tf_Cell : class_facts "Cell" INFO_Cell;
@@ -161,13 +170,23 @@ Record table_facts : Prop := {
   tf_st_string : find_st (s_stypes S) "xs:string" = Some ST_xs_string;
   tf_st_nonneg : find_st (s_stypes S) "NonNegativeInteger" = Some ST_NonNegativeInteger;
   tf_st_double : find_st (s_stypes S) "xs:double" = Some ST_xs_double;
+  tf_st_zto : find_st (s_stypes S) "ZeroToOne" = Some ST_ZeroToOne;
+  tf_st_dgz : find_st (s_stypes S) "DoubleGreaterThanZero" = Some ST_DoubleGreaterThanZero;
   tf_consts : consts_ok = true
 }.
 
 Hypothesis facts : table_facts.
 
+(* what is assumed of the floats: decimal literals are finite, and 0, 0.25, 0.5, 0.75, 1 are ordered as the
+   decimals are (CPython; true of the decimal instance by computation) *)
+Definition float_order_ok : Prop :=
+  (forall d, In d fracs -> F_ltb (F_of_dec d) (F_of_dec (0%Z, 0%nat)) = false /\ F_ltb (F_of_dec (1%Z, 0%nat)) (F_of_dec d) = false) /\
+  F_ltb (F_of_dec (1%Z, 0%nat)) (F_of_dec (0%Z, 0%nat)) = false /\ F_eqb (F_of_dec (1%Z, 0%nat)) (F_of_dec (0%Z, 0%nat)) = false.
+Hypothesis Hfin : forall d, finite (F_of_dec d) = true.
+Hypothesis Hord : float_order_ok.
+
 Lemma value_ok_vok : forall n r d ty v,
-  @value_ok dec dec_veqb dec_ltb (fun d => d) (fun _ => true) S (Build_xattr n ty r d None) v = vok ty v.
+  @value_ok F F_eqb F_ltb F_of_dec finite S (Build_xattr n ty r d None) v = vok ty v.
 Proof. reflexivity. Qed.
 
 Lemma vok_nmlid : forall s, nmlid s = true -> vok "NmlId" (VStr s) = true.
@@ -187,11 +206,23 @@ Proof.
   rewrite andb_true_r. apply Z.leb_le. exact H.
 Qed.
 
-Lemma vok_double : forall d, vok "xs:double" (VFlt d) = true.
-Proof. intros d. unfold vok, value_ok. simpl. rewrite (tf_st_double facts). reflexivity. Qed.
+Lemma vok_double : forall d, vok "xs:double" (VFlt (F_of_dec d)) = true.
+Proof. intros d. unfold vok, value_ok. simpl. rewrite (tf_st_double facts). simpl. unfold float_ok. simpl. rewrite Hfin. reflexivity. Qed.
+
+Lemma vok_diameter : vok "DoubleGreaterThanZero" (VFlt (F_of_dec (1%Z, 0%nat))) = true.
+Proof.
+  destruct Hord as [_ [A B]]. unfold vok, value_ok. simpl. rewrite (tf_st_dgz facts). simpl. unfold float_ok, facet_ok. simpl.
+  rewrite Hfin, A, B. reflexivity.
+Qed.
+
+Lemma vok_frac : forall d, In d fracs -> vok "ZeroToOne" (VFlt (F_of_dec d)) = true.
+Proof.
+  intros d Hd. destruct Hord as [A _]. destruct (A d Hd) as [A1 A2]. unfold vok, value_ok. simpl. rewrite (tf_st_zto facts). simpl.
+  unfold float_ok, facet_ok. simpl. rewrite Hfin, A1, A2. reflexivity.
+Qed.
 
 (* ---------- leaf classes ---------- *)
-Lemma member_conf : forall f m, (0 <= m)%Z -> conf (Datatypes.S f) T S (member_tree dec m) = true.
+Lemma member_conf : forall f m, (0 <= m)%Z -> conf (Datatypes.S f) T S (member_tree F m) = true.
 Proof.
   intros f m H. unfold member_tree. rewrite (conf_unfold _ _ _ _ (tf_Member facts)).
   unfold INFO_Member, aconf, kconf, attr_conf, kid_conf, ext. simpl. rewrite !andb_true_r. exact (vok_nonneg m H).
@@ -204,17 +235,16 @@ Ltac conj_true := repeat (apply andb_true_iff; split); try reflexivity.
 Lemma consts : consts_ok = true.
 Proof. exact (tf_consts facts). Qed.
 
-Lemma include_conf : forall f i, nmlid i = true -> conf (Datatypes.S f) T S (include_tree dec i) = true.
+Lemma include_conf : forall f i, nmlid i = true -> conf (Datatypes.S f) T S (include_tree F i) = true.
 Proof.
   intros f i H. unfold include_tree. open_cls (tf_Include facts) INFO_Include.
   conj_true. exact (vok_nmlid i H).
 Qed.
 
-Lemma point_conf : forall f k, conf (Datatypes.S f) T S (point dec (fun d => d) k) = true.
+Lemma point_conf : forall f k, conf (Datatypes.S f) T S (point F F_of_dec k) = true.
 Proof.
   intros f k. unfold point, flt. open_cls (tf_Point3DWithDiam facts) INFO_Point3DWithDiam.
-  pose proof consts as C. unfold consts_ok in C. repeat (apply andb_true_iff in C; destruct C as [C ?]).
-  conj_true; try (exact (vok_double _)). assumption.
+  conj_true; try (exact (vok_double _)). exact vok_diameter.
 Qed.
 
 Lemma consts_split :
@@ -227,46 +257,43 @@ Lemma consts_split :
      vok "Nml2Quantity_resistivity" (VStr (value_string Resistivity v)) = true) /\
   (forall s, In s ["0.0 mV"; "-70 mV"] -> vok "Nml2Quantity_voltage" (VStr s) = true) /\
   (forall s, In s ["pas"; "non_specific"; "na"; "c"] -> vok "NmlId" (VStr s) = true) /\
-  vok "Nml2Quantity_conductanceDensity" (VStr "1 mS_per_cm2") = true /\
-  vok "DoubleGreaterThanZero" (VFlt (1%Z, 0%nat)) = true /\
-  (forall d, In d [(0%Z, 0%nat); (25%Z, 2%nat); (5%Z, 1%nat); (75%Z, 2%nat); (1%Z, 0%nat)] -> vok "ZeroToOne" (VFlt d) = true).
+  vok "Nml2Quantity_conductanceDensity" (VStr "1 mS_per_cm2") = true.
 Proof.
   pose proof consts as C. unfold consts_ok in C.
-  apply andb_true_iff in C. destruct C as [C C8]. apply andb_true_iff in C. destruct C as [C C7].
   apply andb_true_iff in C. destruct C as [C C6]. apply andb_true_iff in C. destruct C as [C C5].
   apply andb_true_iff in C. destruct C as [C C4]. apply andb_true_iff in C. destruct C as [C C3].
   apply andb_true_iff in C. destruct C as [C1 C2].
-  rewrite forallb_forall in C1, C2, C3, C4, C5, C8.
+  rewrite forallb_forall in C1, C2, C3, C4, C5.
   split; [intros s0 Hs; specialize (C1 s0 Hs); apply andb_true_iff in C1; exact C1|].
   split; [exact C2|].
   split; [intros v Hv; specialize (C3 v Hv);
           apply andb_true_iff in C3; destruct C3 as [C3 Cd]; apply andb_true_iff in C3; destruct C3 as [C3 Cc];
           apply andb_true_iff in C3; destruct C3 as [Ca Cb]; auto|].
-  split; [exact C4|]. split; [exact C5|]. split; [exact C6|]. split; [exact C7 | exact C8].
+  split; [exact C4|]. split; [exact C5 | exact C6].
 Qed.
 
-Lemma frac_ok : forall f, vok "ZeroToOne" (VFlt (frac_dec f)) = true.
+Lemma frac_ok : forall f, vok "ZeroToOne" (VFlt (F_of_dec (frac_dec f))) = true.
 Proof.
-  intros f. destruct consts_split as [_ [_ [_ [_ [_ [_ [_ H]]]]]]]. apply H. unfold frac_dec.
+  intros f. apply vok_frac. unfold frac_dec, fracs.
   destruct (f =? 0)%Z; [left; reflexivity|]. destruct (f =? 1)%Z; [right; left; reflexivity|].
   destruct (f =? 2)%Z; [right; right; left; reflexivity|]. destruct (f =? 3)%Z; [right; right; right; left; reflexivity|].
   right; right; right; right; left; reflexivity.
 Qed.
 
-Lemma parent_conf : forall f p fr, (0 <= p)%Z -> conf (Datatypes.S f) T S (parent_tree dec (fun d => d) p fr) = true.
+Lemma parent_conf : forall f p fr, (0 <= p)%Z -> conf (Datatypes.S f) T S (parent_tree F F_of_dec p fr) = true.
 Proof.
   intros f p fr H. unfold parent_tree. open_cls (tf_SegmentParent facts) INFO_SegmentParent.
   conj_true; [exact (vok_nonneg p H) | exact (frac_ok fr)].
 Qed.
 
 (* ---------- classes with component children ---------- *)
-Lemma cls_point : forall k, o_cls dec (point dec (fun d => d) k) = "Point3DWithDiam". Proof. reflexivity. Qed.
-Lemma cls_parent : forall p fr, o_cls dec (parent_tree dec (fun d => d) p fr) = "SegmentParent". Proof. reflexivity. Qed.
+Lemma cls_point : forall k, o_cls F (point F F_of_dec k) = "Point3DWithDiam". Proof. reflexivity. Qed.
+Lemma cls_parent : forall p fr, o_cls F (parent_tree F F_of_dec p fr) = "SegmentParent". Proof. reflexivity. Qed.
 #[local] Opaque conf point parent_tree.
 
 Lemma seg_conf : forall f k s,
   (0 <= sid s)%Z -> printable (sname s) = true -> (forall p fr, spar s = Some (p, fr) -> (0 <= p)%Z) ->
-  conf (Datatypes.S (Datatypes.S f)) T S (seg_tree dec (fun d => d) k s) = true.
+  conf (Datatypes.S (Datatypes.S f)) T S (seg_tree F F_of_dec k s) = true.
 Proof.
   intros f k s Hid Hname Hpar. unfold seg_tree.
   destruct (spar s) as [[p fr]|] eqn:E; destruct (sprox s);
@@ -275,9 +302,9 @@ Proof.
     conj_true; try (exact (vok_nonneg _ Hid)); exact (vok_string _ Hname).
 Qed.
 
-Lemma kids_conf : forall (A : Type) (g : A -> xobj) ty f l,
-  (forall x, In x l -> o_cls dec (g x) = ty /\ conf f T S (g x) = true) ->
-  forallb (fun o' => String.eqb (o_cls dec o') ty && conf f T S o') (map g l) = true.
+Lemma kids_conf : forall (A : Type) (g : A -> obj F) ty f l,
+  (forall x, In x l -> o_cls F (g x) = ty /\ conf f T S (g x) = true) ->
+  forallb (fun o' => String.eqb (o_cls F o') ty && conf f T S o') (map g l) = true.
 Proof.
   intros A g ty f l H. apply forallb_forall. intros o Ho. apply in_map_iff in Ho. destruct Ho as [x [E Hx]]. subst o.
   destruct (H x Hx) as [E1 E2]. rewrite E1, E2, String.eqb_refl. reflexivity.
@@ -298,9 +325,251 @@ Lemma group_conf : forall f g,
   nmlid (gid g) = true -> (forall n, nlex g = Some n -> In n known_nlex) ->
   (forall m, In m (members g) -> (0 <= m)%Z) -> (forall i, In i (includes g) -> nmlid i = true) ->
   small (members g) -> small (includes g) ->
-  conf (Datatypes.S (Datatypes.S f)) T S (group_tree dec g) = true.
+  conf (Datatypes.S (Datatypes.S f)) T S (group_tree F g) = true.
 Proof.
   intros f g Hid Hnl Hm Hi Sm Si. unfold group_tree.
-  open_cls (tf_SegmentGroup facts) INFO_SegmentGroup.
-Abort.
+  destruct consts_split as [Cn [Cx _]].
+  assert (Hmem : forallb (fun o' => String.eqb (o_cls F o') "Member" && conf (Datatypes.S f) T S o')
+                         (map (member_tree F) (members g)) = true).
+  { apply kids_conf. intros m Hin. split; [reflexivity | apply member_conf; apply Hm; exact Hin]. }
+  assert (Hinc : forallb (fun o' => String.eqb (o_cls F o') "Include" && conf (Datatypes.S f) T S o')
+                         (map (include_tree F) (includes g)) = true).
+  { apply kids_conf. intros i Hin. split; [reflexivity | apply include_conf; apply Hi; exact Hin]. }
+  assert (Lm : (Z.of_nat (length (map (member_tree F) (members g))) <=? gds_unbounded)%Z = true)
+    by (rewrite map_length; apply Z.leb_le; exact Sm).
+  assert (Li : (Z.of_nat (length (map (include_tree F) (includes g))) <=? gds_unbounded)%Z = true)
+    by (rewrite map_length; apply Z.leb_le; exact Si).
+  destruct (nlex g) as [n|] eqn:En; destruct (default_notes (gid g)) as [nt|] eqn:Ent;
+    open_cls (tf_SegmentGroup facts) INFO_SegmentGroup; rewrite Hmem, Hinc, Lm, Li; simpl;
+    conj_true; try (exact (vok_nmlid _ Hid)); try (exact (Cx n (Hnl n eq_refl)));
+    try (apply (Cn nt (default_notes_in _ _ Ent))).
+Qed.
+
+Definition seg_fine (s : seg) : Prop :=
+  (0 <= sid s)%Z /\ printable (sname s) = true /\ (forall p fr, spar s = Some (p, fr) -> (0 <= p)%Z).
+Definition group_fine (g : group) : Prop :=
+  nmlid (gid g) = true /\ (forall n, nlex g = Some n -> In n known_nlex) /\
+  (forall m, In m (members g) -> (0 <= m)%Z) /\ (forall i, In i (includes g) -> nmlid i = true) /\
+  small (members g) /\ small (includes g).
+
+Lemma segs_conf : forall f l k, (forall s, In s l -> seg_fine s) ->
+  forallb (fun o' => String.eqb (o_cls F o') "Segment" && conf (Datatypes.S (Datatypes.S f)) T S o')
+          (segs_tree F F_of_dec k l) = true.
+Proof.
+  intros f. induction l as [|s l IH]; intros k H; [reflexivity|].
+  change (segs_tree F F_of_dec k (s :: l)) with (seg_tree F F_of_dec k s :: segs_tree F F_of_dec (k + 1) l).
+  cbn [forallb]. destruct (H s (or_introl eq_refl)) as [A [B C]]. rewrite (seg_conf f k s A B C).
+  rewrite IH; [reflexivity|]. intros x Hx. apply H. right. exact Hx.
+Qed.
+
+Lemma segs_tree_length : forall l k, length (segs_tree F F_of_dec k l) = length l.
+Proof. induction l as [|s l IH]; intros k; simpl; [reflexivity | rewrite IH; reflexivity]. Qed.
+
+#[local] Opaque group_tree seg_tree.
+
+Lemma morphology_conf : forall f mid c,
+  nmlid mid = true -> segs c <> [] -> (forall s, In s (segs c) -> seg_fine s) -> (forall g, In g (groups c) -> group_fine g) ->
+  small (segs c) -> small (groups c) ->
+  conf (Datatypes.S (Datatypes.S (Datatypes.S f))) T S (morphology_tree F F_of_dec mid c) = true.
+Proof.
+  intros f mid c Hid Hne Hs Hg Ss Sg. unfold morphology_tree.
+  pose proof (segs_conf f (segs c) 0%Z Hs) as Hsegs.
+  assert (Hgr : forallb (fun o' => String.eqb (o_cls F o') "SegmentGroup" && conf (Datatypes.S (Datatypes.S f)) T S o')
+                        (map (group_tree F) (groups c)) = true).
+  { apply kids_conf. intros g Hin. split; [reflexivity|]. destruct (Hg g Hin) as [A [B [C [D [E E2]]]]].
+    apply group_conf; assumption. }
+  assert (Ls : (Z.of_nat (length (segs_tree F F_of_dec 0 (segs c))) <=? gds_unbounded)%Z = true)
+    by (rewrite segs_tree_length; apply Z.leb_le; exact Ss).
+  assert (Lg : (Z.of_nat (length (map (group_tree F) (groups c))) <=? gds_unbounded)%Z = true)
+    by (rewrite map_length; apply Z.leb_le; exact Sg).
+  assert (L1 : Nat.leb 1 (length (segs_tree F F_of_dec 0 (segs c))) = true).
+  { rewrite segs_tree_length. destruct (segs c); [congruence | reflexivity]. }
+  open_cls (tf_Morphology facts) INFO_Morphology. rewrite Hsegs, Hgr, Ls, Lg. simpl.
+  unfold cnt_of, find_ek_tag, Validate.field. simpl. rewrite segs_tree_length.
+  destruct (segs c) as [|s0 r0]; [congruence|]. simpl.
+  conj_true. exact (vok_nmlid _ Hid).
+Qed.
+
+(* ---------- biophysical properties ---------- *)
+Definition prop_fine (p : prop) : Prop :=
+  nmlid (pgrp p) = true /\
+  match pk p with
+  | ChannelDens => nmlid ("cd" ++ string_of_Z (cd_k (pval p))) = true
+  | _ => In (pval p) [0; 1; 2]%Z
+  end.
+
+Lemma prop_cls : forall p, o_cls F (prop_tree F p) = kind_cls (pk p).
+Proof. intros p. unfold prop_tree. destruct (pk p); reflexivity. Qed.
+
+Lemma prop_conf : forall f p, prop_fine p -> conf (Datatypes.S f) T S (prop_tree F p) = true.
+Proof.
+  intros f p [Hg Hv]. destruct consts_split as [_ [_ [Cv [Ce [Ci Cc]]]]].
+  unfold prop_tree. destruct (pk p) eqn:Ek.
+  - destruct (Cv _ Hv) as [A _]. open_cls (tf_SpikeThresh facts) INFO_SpikeThresh.
+    conj_true; [exact A | exact (vok_nmlid _ Hg)].
+  - destruct (Cv _ Hv) as [_ [A _]]. open_cls (tf_InitMembPotential facts) INFO_InitMembPotential.
+    conj_true; [exact A | exact (vok_nmlid _ Hg)].
+  - destruct (Cv _ Hv) as [_ [_ [A _]]]. open_cls (tf_SpecificCapacitance facts) INFO_SpecificCapacitance.
+    conj_true; [exact A | exact (vok_nmlid _ Hg)].
+  - open_cls (tf_ChannelDensity facts) INFO_ChannelDensity.
+    conj_true.
+    + exact (vok_nmlid _ Hv).
+    + apply Ci. left. reflexivity.
+    + exact Cc.
+    + apply Ce. unfold cd_erev. destruct (pval p mod 10 =? 0)%Z; [left | right; left]; reflexivity.
+    + exact (vok_nmlid _ Hg).
+    + apply Ci. unfold cd_ion. destruct ((pval p / 10) mod 10 =? 0)%Z; [right; left | right; right; left]; reflexivity.
+  - destruct (Cv _ Hv) as [_ [_ [_ A]]]. open_cls (tf_Resistivity facts) INFO_Resistivity.
+    conj_true; [exact A | exact (vok_nmlid _ Hg)].
+Qed.
+
+Lemma pkind_eqb_eq : forall a b, pkind_eqb a b = true -> a = b.
+Proof. destruct a, b; simpl; intros H; try discriminate; reflexivity. Qed.
+
+Definition plist (k : pkind) (c : cell) : list (obj F) :=
+  map (prop_tree F) (filter (fun p => pkind_eqb (pk p) k) (props c)).
+
+Lemma plist_conf : forall f k c, (forall p, In p (props c) -> prop_fine p) ->
+  forallb (fun o' => String.eqb (o_cls F o') (kind_cls k) && conf (Datatypes.S f) T S o') (plist k c) = true.
+Proof.
+  intros f k c H. unfold plist. apply kids_conf. intros p Hp. apply filter_In in Hp. destruct Hp as [Hin Hk].
+  apply pkind_eqb_eq in Hk. split; [rewrite prop_cls, Hk; reflexivity | apply prop_conf; apply H; exact Hin].
+Qed.
+
+Lemma plist_small : forall k c, small (props c) -> (Z.of_nat (length (plist k c)) <=? gds_unbounded)%Z = true.
+Proof.
+  intros k c H. unfold plist. rewrite map_length. apply Z.leb_le. unfold small in H.
+  assert (L : length (filter (fun p => pkind_eqb (pk p) k) (props c)) <= length (props c)).
+  { clear. induction (props c) as [|p l IH]; simpl; [lia|]. destruct (pkind_eqb (pk p) k); simpl; lia. }
+  unfold gds_unbounded. lia.
+Qed.
+
+Lemma plist_nonempty : forall k c, has_kind k c = true -> Nat.leb 1 (length (plist k c)) = true.
+Proof.
+  intros k c H. unfold plist, has_kind in *. rewrite map_length. apply existsb_exists in H. destruct H as [p [Hin Hk]].
+  assert (Hf : In p (filter (fun p => pkind_eqb (pk p) k) (props c))) by (apply filter_In; split; assumption).
+  destruct (filter (fun p => pkind_eqb (pk p) k) (props c)); [contradiction | reflexivity].
+Qed.
+
+Lemma membrane_tree_eq : forall c, membrane_tree F c =
+  Obj "MembraneProperties"
+      [ext F; ("channel_populations", VObjs []); ("channel_densities", VObjs (plist ChannelDens c));
+       ("channel_density_v_shifts", VObjs []); ("channel_density_nernsts", VObjs []);
+       ("channel_density_ghks", VObjs []); ("channel_density_ghk2s", VObjs []);
+       ("channel_density_non_uniforms", VObjs []); ("channel_density_non_uniform_nernsts", VObjs []);
+       ("channel_density_non_uniform_ghks", VObjs []);
+       ("spike_threshes", VObjs (plist SpikeThresh c)); ("specific_capacitances", VObjs (plist SpecificCapacitance c));
+       ("init_memb_potentials", VObjs (plist InitMembPotential c))].
+Proof. reflexivity. Qed.
+
+Lemma intracellular_tree_eq : forall c, intracellular_tree F c =
+  Obj "IntracellularProperties" [ext F; ("species", VObjs []); ("resistivities", VObjs (plist Resistivity c))].
+Proof. reflexivity. Qed.
+
+#[local] Opaque prop_tree plist.
+
+Lemma membrane_conf : forall f c,
+  (forall p, In p (props c) -> prop_fine p) -> small (props c) ->
+  has_kind SpikeThresh c = true -> has_kind InitMembPotential c = true -> has_kind SpecificCapacitance c = true ->
+  conf (Datatypes.S (Datatypes.S f)) T S (membrane_tree F c) = true.
+Proof.
+  intros f c Hp Sp H1 H2 H3. rewrite membrane_tree_eq.
+  pose proof (plist_conf f ChannelDens c Hp) as A1. pose proof (plist_conf f SpikeThresh c Hp) as A2.
+  pose proof (plist_conf f SpecificCapacitance c Hp) as A3. pose proof (plist_conf f InitMembPotential c Hp) as A4.
+  pose proof (plist_small ChannelDens c Sp) as B1. pose proof (plist_small SpikeThresh c Sp) as B2.
+  pose proof (plist_small SpecificCapacitance c Sp) as B3. pose proof (plist_small InitMembPotential c Sp) as B4.
+  pose proof (plist_nonempty _ _ H1) as N1. pose proof (plist_nonempty _ _ H2) as N2. pose proof (plist_nonempty _ _ H3) as N3.
+  simpl kind_cls in *.
+  open_cls (tf_MembraneProperties facts) INFO_MembraneProperties.
+  rewrite A1, A2, A3, A4, B1, B2, B3, B4. simpl.
+  unfold cnt_of, find_ek_tag, Validate.field. simpl.
+  destruct (length (plist SpikeThresh c)); [discriminate N1|].
+  destruct (length (plist SpecificCapacitance c)); [discriminate N3|].
+  destruct (length (plist InitMembPotential c)); [discriminate N2|]. reflexivity.
+Qed.
+
+Lemma intracellular_conf : forall f c,
+  (forall p, In p (props c) -> prop_fine p) -> small (props c) ->
+  conf (Datatypes.S (Datatypes.S f)) T S (intracellular_tree F c) = true.
+Proof.
+  intros f c Hp Sp. rewrite intracellular_tree_eq.
+  pose proof (plist_conf f Resistivity c Hp) as A1. pose proof (plist_small Resistivity c Sp) as B1.
+  simpl kind_cls in *.
+  open_cls (tf_IntracellularProperties facts) INFO_IntracellularProperties.
+  rewrite A1, B1. reflexivity.
+Qed.
+
+Lemma cls_membrane : forall c, o_cls F (membrane_tree F c) = "MembraneProperties". Proof. reflexivity. Qed.
+Lemma cls_intra : forall c, o_cls F (intracellular_tree F c) = "IntracellularProperties". Proof. reflexivity. Qed.
+Lemma cls_morph : forall m c, o_cls F (morphology_tree F F_of_dec m c) = "Morphology". Proof. reflexivity. Qed.
+Lemma cls_bio : forall b c, o_cls F (biophys_tree F b c) = "BiophysicalProperties". Proof. reflexivity. Qed.
+#[local] Opaque membrane_tree intracellular_tree morphology_tree.
+
+Lemma biophys_conf : forall f bid c,
+  nmlid bid = true -> (forall p, In p (props c) -> prop_fine p) -> small (props c) ->
+  has_kind SpikeThresh c = true -> has_kind InitMembPotential c = true -> has_kind SpecificCapacitance c = true ->
+  conf (Datatypes.S (Datatypes.S (Datatypes.S f))) T S (biophys_tree F bid c) = true.
+Proof.
+  intros f bid c Hid Hp Sp H1 H2 H3. unfold biophys_tree.
+  open_cls (tf_BiophysicalProperties facts) INFO_BiophysicalProperties.
+  rewrite cls_membrane, cls_intra, (membrane_conf f c Hp Sp H1 H2 H3), (intracellular_conf f c Hp Sp). simpl.
+  conj_true. exact (vok_nmlid _ Hid).
+Qed.
+
+#[local] Opaque biophys_tree.
+
+(* ---------- the whole cell ---------- *)
+Definition cell_fine (c : cell) : Prop :=
+  segs c <> [] /\ (forall s, In s (segs c) -> seg_fine s) /\ (forall g, In g (groups c) -> group_fine g) /\
+  (forall p, In p (props c) -> prop_fine p) /\ small (segs c) /\ small (groups c) /\ small (props c) /\
+  has_kind SpikeThresh c = true /\ has_kind InitMembPotential c = true /\ has_kind SpecificCapacitance c = true.
+
+Theorem cell_conf : forall f mid bid c,
+  nmlid mid = true -> nmlid bid = true -> cell_fine c ->
+  conf (Datatypes.S (Datatypes.S (Datatypes.S (Datatypes.S f)))) T S (cell_tree F F_of_dec mid bid c) = true.
+Proof.
+  intros f mid bid c Hm Hb [Hne [Hs [Hg [Hp [Ss [Sg [Sp [H1 [H2 H3]]]]]]]]]. unfold cell_tree.
+  destruct consts_split as [_ [_ [_ [_ [Ci _]]]]].
+  open_cls (tf_Cell facts) INFO_Cell.
+  rewrite cls_morph, cls_bio, (morphology_conf f mid c Hm Hne Hs Hg Ss Sg), (biophys_conf f bid c Hb Hp Sp H1 H2 H3). simpl.
+  conj_true. apply Ci. right; right; right; left; reflexivity.
+Qed.
+
+(* ---------- from the decidable predicates ---------- *)
+Lemma fine_of_bools : forall c, valid_cell c = true -> tree_facets c = true -> cell_fine c.
+Proof.
+  intros c Hv Hf. unfold valid_cell in Hv. unfold tree_facets in Hf.
+  repeat (apply andb_true_iff in Hv; destruct Hv as [Hv ?]).
+  repeat (apply andb_true_iff in Hf; destruct Hf as [Hf ?]).
+  rename H into Vp, H0 into K3, H1 into K2, H2 into K1, H3 into Vg, H4 into Vs.
+  rename H5 into Sp, H6 into Sg, H7 into Ss, H8 into Fp, H9 into Fg.
+  rewrite forallb_forall in Vp, Vg, Vs, Fp, Fg, Hf.
+  unfold small_b in *. unfold cell_fine, small.
+  split; [destruct (segs c); [discriminate | discriminate]|].
+  split.
+  { intros s Hs. specialize (Vs s Hs). specialize (Hf s Hs). apply andb_true_iff in Hf. destruct Hf as [A B].
+    split; [apply Z.leb_le; exact Vs|]. split; [exact A|]. intros p fr E. rewrite E in B. apply Z.leb_le. exact B. }
+  split.
+  { intros g Hg. specialize (Vg g Hg). specialize (Fg g Hg).
+    apply andb_true_iff in Vg. destruct Vg as [Vg Vm]. apply andb_true_iff in Vg. destruct Vg as [Vid Vi].
+    apply andb_true_iff in Fg. destruct Fg as [Fg Si]. apply andb_true_iff in Fg. destruct Fg as [Fn Sm].
+    rewrite forallb_forall in Vm, Vi.
+    split; [exact Vid|]. split.
+    { intros n En. rewrite En in Fn. change (existsb (String.eqb n) known_nlex = true) in Fn. apply existsb_exists in Fn. destruct Fn as [x [Hx Ex]].
+      apply String.eqb_eq in Ex. subst x. exact Hx. }
+    split; [intros m Hm; apply Z.leb_le; apply Vm; exact Hm|].
+    split; [exact Vi|]. split; apply Z.leb_le; assumption. }
+  split.
+  { intros p Hp. specialize (Vp p Hp). specialize (Fp p Hp). apply andb_true_iff in Vp. destruct Vp as [_ Vgp].
+    split; [exact Vgp|]. unfold prop_truthful in Fp. destruct (pk p); try exact Fp;
+      (apply andb_true_iff in Fp; destruct Fp as [A B]; apply Z.leb_le in A; apply Z.ltb_lt in B;
+       assert (E : pval p = 0%Z \/ pval p = 1%Z \/ pval p = 2%Z) by lia;
+       destruct E as [E|[E|E]]; rewrite E; simpl; auto). }
+  repeat split; try (apply Z.leb_le; assumption); assumption.
+Qed.
+
+Theorem tree_conforms : forall f mid bid c,
+  nmlid mid = true -> nmlid bid = true -> valid_cell c = true -> tree_facets c = true ->
+  conf (Datatypes.S (Datatypes.S (Datatypes.S (Datatypes.S f)))) T S (cell_tree F F_of_dec mid bid c) = true.
+Proof. intros f mid bid c Hm Hb Hv Hf. apply cell_conf; [exact Hm | exact Hb | apply fine_of_bools; assumption]. Qed.
 End TreeConf.
